@@ -671,6 +671,20 @@ impl Worksheet {
         Ok(constants::DEFAULT_ROW_HEIGHT)
     }
 
+    /// Returns the height of a row in pixels, ignoring the hidden status
+    /// (the counterpart of [`Worksheet::get_actual_column_width`])
+    pub fn get_actual_row_height(&self, row: i32) -> Result<f64, String> {
+        if !is_valid_row(row) {
+            return Err(format!("Row number '{row}' is not valid."));
+        }
+        for r in &self.rows {
+            if r.r == row {
+                return Ok(r.height * constants::ROW_HEIGHT_FACTOR);
+            }
+        }
+        Ok(constants::DEFAULT_ROW_HEIGHT)
+    }
+
     /// Calculates dimension of the sheet. This function isn't cheap to calculate.
     pub fn dimension(&self) -> WorksheetDimension {
         // FIXME: It's probably better to just track the size as operations happen.
